@@ -369,6 +369,32 @@ impl Bnf {
         }
         (0..n).map(|i| m[i][i]).collect()
     }
+    /// some non-terminal derives itself: A =>+ A
+    pub fn cyclic(&self) -> bool {
+        let nul = self.nullable();
+        let n = self.nnt;
+        let mut m = vec![vec![false; n]; n];
+        for (l, r) in &self.prods {
+            for (i, f) in r.iter().enumerate() {
+                if let Fac::N(x) = f {
+                    let rest_nullable = r.iter().enumerate().all(|(j, g)| j == i || matches!(g, Fac::N(y) if nul[*y as usize]));
+                    if rest_nullable {
+                        m[*l as usize][*x as usize] = true;
+                    }
+                }
+            }
+        }
+        for k in 0..n {
+            for i in 0..n {
+                for j in 0..n {
+                    if m[i][k] && m[k][j] {
+                        m[i][j] = true;
+                    }
+                }
+            }
+        }
+        (0..n).any(|i| m[i][i])
+    }
     pub fn well_formed_ll(&self) -> bool {
         self.productive().iter().all(|b| *b)
             && self.reachable().iter().all(|b| *b)
